@@ -94,7 +94,20 @@ def _run_once(resources, steps):
     return {'rows': rows, 'dp': ds.dp.descriptor}
 
 
-def run_stream(resources, steps, rerun=True):
+def _run_collect(resources, steps):
+    """the consumer takes all the resources first, lets go of the resources iterator, and reads the rows afterwards"""
+    import gc
+    with quiet():
+        ds = Flow(Src(copy.deepcopy(resources)), *steps).datastream()
+        it = iter(ds.res_iter)
+        taken = list(it)
+        del it
+        gc.collect()
+        rows = [list(r) for r in taken]
+    return {'rows': rows, 'dp': ds.dp.descriptor}
+
+
+def run_stream(resources, steps, rerun=True, collect=False):
     """Raw rows as they leave the last step (Flow.datastream(), no final cast).
     With rerun (the default) the same step objects are executed a second time on a fresh copy of the source: a
     property that holds for a run holds for every run of the same steps, so the second run's output is what is
@@ -111,6 +124,17 @@ def run_stream(resources, steps, rerun=True):
         if enc(second['rows']) != enc(first['rows']) or enc(second['dp']) != enc(first['dp']):
             return {'error': E_OTHER, 'exc': 'the second run of the same step objects differs from the first: %s vs %s'
                     % (str(enc(second['rows']))[:160], str(enc(first['rows']))[:160]), 'exc_type': 'SecondRun'}
+        if collect:
+            # lazily chained row- and field-level steps: what comes out does not depend on whether the consumer reads each
+            # resource's rows before taking the next resource or takes all resources first
+            try:
+                third = _run_collect(resources, steps)
+            except Exception as e3:
+                return {'error': E_OTHER, 'exc': 'reading the rows after all resources were taken failed (%s: %s) although reading them in turn succeeds'
+                        % (type(e3).__name__, str(e3)[:200]), 'exc_type': 'CollectFirst'}
+            if enc(third['rows']) != enc(second['rows']):
+                return {'error': E_OTHER, 'exc': 'the rows depend on the order in which the consumer takes resources and reads rows: %s (all resources '
+                        'taken first) vs %s (in turn)' % (str(enc(third['rows']))[:160], str(enc(second['rows']))[:160]), 'exc_type': 'CollectFirst'}
         return second
     except Exception as e:
         c = e
